@@ -414,6 +414,11 @@ func parseTmuxOptions(arg string, index int) (*tmuxOptions, error) {
 		tokens = append([]string{"center"}, tokens...)
 	}
 
+	// Position and at most two sizes
+	if len(tokens) > 3 {
+		return nil, errorToReturn
+	}
+
 	// One size given
 	var size1 sizeSpec
 	if len(tokens) > 1 {
